@@ -2,7 +2,7 @@
 From Coq Require Import QArith.
 From Boreal Require Import Base.Prelude Spec.MathSpec Spec.Digest Spec.Strtol Spec.RangeSpec
   Model.ModFuncs Model.HashMod Model.MathMod Model.StringMod Model.ModFuncsCase
-  Proofs.ModFuncsProofs Proofs.ModFuncsFrag Proofs.ModFuncsToInt Proofs.ModFuncsMath Proofs.ModFuncsCrc Proofs.ModFuncsMath2.
+  Proofs.ModFuncsProofs Proofs.ModFuncsFrag Proofs.ModFuncsToInt Proofs.ModFuncsMath Proofs.ModFuncsCrc Proofs.ModFuncsMath2 Proofs.ModFuncsAll.
 
 (* ---- arguments: with i64 arguments the checked additions of get_args / offset_length_to_start_end never fail *)
 Theorem C16_args_no_overflow : forall o n,
@@ -201,6 +201,14 @@ Theorem C16_math_to_string : forall m v,
   /\ forall b, to_string_call [AInt v; AInt b] = spec_call m MToString [AInt v; AInt b].
 Proof. exact to_string_spec_eq. Qed.
 
+(* ---- the whole model = the whole specification: for every well-formed scan (bytes < 256, sizes below 2^64/255,
+   regions without address overflow, direct or fragmented, any scan mode) and every list of well-typed probes with i64
+   arguments, with the hash cache threaded through the probes.  f64 rounding is outside: real-valued results are the
+   exact rational / the integer data (hit counts, histogram) on both sides. *)
+Theorem C16_model_eq_spec : forall m ps, mem_ok m ->
+  Forall (fun p => wf_probe (fst p) (snd p)) ps -> model_run m no_caches ps = spec_run m ps.
+Proof. exact model_eq_spec. Qed.
+
 (* ---- non-vacuity *)
 Example C16_range_example :
   hash_call checksum_d (Direct [1;2;3;4;5]) [AInt 3; AInt 100] = RInt 9.
@@ -248,6 +256,15 @@ Example C16_math_fragmented_example :   (* hypotheses satisfiable; monte-carlo o
   /\ snd (model_call (Frag true rs) no_caches MMode [AInt 103; AInt 9]) = RInt 255.
 Proof. vm_compute. repeat split. Qed.
 
+Example C16_model_eq_spec_example :   (* the hypotheses of C16_model_eq_spec hold of a concrete fragmented scan *)
+  mem_ok ex_mem /\ Forall (fun p => wf_probe (fst p) (snd p)) ex_probes.
+Proof. exact ex_wf. Qed.
+
+Example C16_model_eq_spec_values :
+  model_run ex_mem no_caches [(HCrc32, [AInt 16; AInt 100]); (MMode, [AInt 16; AInt 7]); (MCount, [AInt 97])]
+  = [RInt 824863398; RInt 97; RUndef].
+Proof. vm_compute. reflexivity. Qed.
+
 Example C16_crc_table_example :   (* entries 1, 128, 255 of the standard CRC-32 table *)
   nth 1 crc_table 0 = 1996959894 /\ nth 128 crc_table 0 = 3988292384 /\ nth 255 crc_table 0 = 755167117.
 Proof. vm_compute. repeat split. Qed.
@@ -285,3 +302,4 @@ Print Assumptions C16_checksum_crc_slices.
 Print Assumptions C16_hash_int_ranges.
 Print Assumptions C16_math_fragmented.
 Print Assumptions C16_on_range_fragmented_inv.
+Print Assumptions C16_model_eq_spec.
